@@ -73,7 +73,7 @@ func registerMore() {
 			{Dir: "jrpc2", Name: "Harness_C02_single", Reach: []string{"dispatched", "silent", "single-reply"}},
 			{Dir: "jrpc2", Name: "Harness_selftest_wire", Reach: []string{"selftest-done", "selftest-broken-json"}, Tweak: delays(0, 1),
 				Bounds: map[string]string{"purpose": "engine validation: the inputs and expected replies of the repository's own TestServer_nonLibraryClient table (19 rows + 2 broken records) run through the engine; a mismatch makes the check inconclusive"}},
-			{Dir: "jrpc2", Name: "Harness_C02_envelope", Reach: []string{"answered", "alive"}},
+			{Dir: "jrpc2", Name: "Harness_C02_envelope", Reach: []string{"answered", "alive", "padded"}},
 			{Dir: "jrpc2", Name: "Harness_C02_batch", Reach: []string{"batch-reply"}, ThoroughOnly: true},
 		},
 	})
@@ -200,7 +200,7 @@ func registerMore2() {
 			{Dir: "jhttp", Name: "Harness_C19_query", Reach: []string{"returned", "number", "quoted", "bytes", "literal", "liberal-number"}},
 			{Dir: "jhttp", Name: "Harness_C19_path", Reach: []string{"returned"}},
 			{Dir: "jhttp", Name: "Harness_C19_getter", Reach: []string{"200", "400", "404", "500"}},
-			{Dir: "jhttp", Name: "Harness_C19_channel", Reach: []string{"call", "notify", "batch", "http-failure", "close-in-flight", "closed"}},
+			{Dir: "jhttp", Name: "Harness_C19_channel", Reach: []string{"call", "notify", "batch", "http-failure", "http-status", "close-in-flight", "closed"}},
 		},
 	})
 	addProp(&PropSpec{
@@ -312,6 +312,7 @@ func registerMore2() {
 		Harnesses: []HarnessSpec{
 			{Dir: "jrpc2", Name: "Harness_C13_roundtrip", Reach: []string{"roundtrip"}},
 			{Dir: "jrpc2", Name: "Harness_C13_producers", Reach: []string{"bad-params", "client-request", "push", "response"}},
+			{Dir: "jrpc2", Name: "Harness_C13_padded", Reach: []string{"padded"}},
 			{Dir: "jrpc2", Name: "Harness_C13_parse", Reach: []string{"valid-member", "invalid-member", "invalid-json"}},
 		},
 	})
